@@ -31,6 +31,7 @@ type obs struct {
 	ch chan struct{} // poked on every event
 
 	streamLen int // total bytes this case may send (runaway guard)
+	lastEvent time.Time
 
 	seen      int   // bytes the loop has read so far (extracted + len(currBuffer))
 	extracted int   // sum of pkgLen of all PackageFull answers
@@ -61,6 +62,7 @@ func (o *obs) poke() {
 // onParse is called with the real answer of ParsePackage(buff).
 func (o *obs) onParse(buff []byte, n, status int) {
 	o.mu.Lock()
+	o.lastEvent = time.Now()
 	o.parses++
 	if o.parses > 8*o.streamLen+64 {
 		// the real loop is spinning (e.g. a zero-length "full" packet): park it for good
@@ -103,6 +105,7 @@ func (o *obs) onParse(buff []byte, n, status int) {
 
 func (o *obs) onDeliver(pkg []byte) {
 	o.mu.Lock()
+	o.lastEvent = time.Now()
 	o.delivered = append(o.delivered, pkg)
 	o.mu.Unlock()
 	o.poke()
@@ -148,7 +151,12 @@ var realServerProto = &tars.Protocol{}
 // protocol.TarsProtocol unless the user installs another one).
 var realClientProto = &protocol.TarsProtocol{}
 
+// srvProto IS a *tars.Protocol as far as the transport layer can tell: the real protocol object is
+// embedded, so every optional interface the receive loop may probe for on its protocol (type
+// assertion) is answered by the real tars.Protocol; only the five ServerProtocol methods are
+// overridden (ParsePackage forwards to the real one).
 type srvProto struct {
+	*tars.Protocol
 	mu   sync.Mutex
 	cur  *obs
 	port string // client port of the current case's connection
@@ -243,7 +251,7 @@ func freeAddr() string {
 func startServer(mode string) (*server, error) {
 	var lastErr error
 	for try := 0; try < 8; try++ {
-		p := &srvProto{}
+		p := &srvProto{Protocol: realServerProto}
 		conf := &transport.TarsServerConf{
 			Proto: "tcp", Address: freeAddr(), IdleTimeout: time.Hour, QueueCap: 4096,
 			TCPReadBuffer: 128 * 1024, TCPWriteBuffer: 128 * 1024, TCPNoDelay: true,
@@ -284,8 +292,12 @@ type outcome struct {
 }
 
 const (
-	syncTimeout  = 12 * time.Second
-	closeTimeout = 20 * time.Second
+	syncTimeout = 12 * time.Second
+	// softSync: how long the writer waits for the loop to show that it consumed a chunk before it
+	// gives up exact chunk control for the rest of the connection (normally microseconds)
+	softSync      = 2 * time.Second
+	settleTimeout = 4 * time.Second
+	closeTimeout  = 20 * time.Second
 )
 
 // drive writes the chunks to w, waiting after each until the loop under test has consumed it.
@@ -304,14 +316,20 @@ func drive(o *obs, w net.Conn, chunks [][]byte, pauses bool, out *outcome) {
 				stopped = true
 			} else {
 				written += len(c)
-				ok := o.wait(syncTimeout, func() bool {
-					return o.runaway || o.errored || (o.seen >= written && o.quiescent)
-				})
-				if !ok {
+				ok := true
+				if out.Stalled == "" { // (once exact control is lost, just keep writing)
+					ok = o.wait(softSync, func() bool {
+						return o.runaway || o.errored || (o.seen >= written && o.quiescent)
+					})
+				}
+				if !ok && out.Stalled == "" {
+					// the loop did not show (through ParsePackage) that it consumed the chunk. That
+					// alone is no violation (a loop may legitimately not parse while it knows the
+					// head packet is incomplete): go on without exact chunk control; the packets
+					// handed over in the end decide.
 					o.mu.Lock()
 					out.Stalled = fmt.Sprintf("chunk %d: written=%d seen=%d quiescent=%v parses=%d", i, written, o.seen, o.quiescent, o.parses)
 					o.mu.Unlock()
-					stopped = true
 				}
 			}
 		}
@@ -326,6 +344,22 @@ func drive(o *obs, w net.Conn, chunks [][]byte, pauses bool, out *outcome) {
 		}
 		out.Trace = append(out.Trace, fmt.Sprintf("%d%s", len(o.fullSeq), st))
 		o.mu.Unlock()
+	}
+	if out.Stalled != "" {
+		// give the loop time to work off everything that was written
+		// (until it shows so, or has been silent for a while)
+		t0 := time.Now()
+		for time.Since(t0) < settleTimeout {
+			if o.wait(100*time.Millisecond, func() bool { return o.runaway || o.errored || (o.seen >= written && o.quiescent) }) {
+				break
+			}
+			o.mu.Lock()
+			quiet := time.Since(o.lastEvent)
+			o.mu.Unlock()
+			if quiet > 800*time.Millisecond && time.Since(t0) > 800*time.Millisecond {
+				break
+			}
+		}
 	}
 }
 
@@ -555,6 +589,7 @@ func runClientSession(ln net.Listener, mode string, conns [][][]byte, ends []str
 // ---------------------------------------------------------------------------------------------
 
 type isoProto struct {
+	*tars.Protocol
 	mu     sync.Mutex
 	ch     chan struct{}
 	got    map[string][][]byte // client port -> packets handed to Invoke
@@ -609,7 +644,7 @@ func (p *isoProto) wait(d time.Duration, cond func() bool) bool {
 
 // runIsolation returns "" when the property holds, else a description. bad is the illegal header.
 func runIsolation(maxInvoke int32, good1, good2, bad []byte) (problem string, err error) {
-	p := &isoProto{ch: make(chan struct{}, 1), got: map[string][][]byte{}, closed: map[string]bool{}}
+	p := &isoProto{Protocol: realServerProto, ch: make(chan struct{}, 1), got: map[string][][]byte{}, closed: map[string]bool{}}
 	var srv *transport.TarsServer
 	var addr string
 	for try := 0; ; try++ {
